@@ -199,8 +199,8 @@ func (rt *runtime) fromPropertyDescriptor(descriptor property) *object {
 	if descriptor.isDataDescriptor() {
 		obj.defineProperty("value", descriptor.value.(Value), 0o111, false)
 		obj.defineProperty("writable", boolValue(descriptor.writable()), 0o111, false)
-	} else if descriptor.isAccessorDescriptor() {
-		getSet := descriptor.value.(propertyGetSet)
+	} else if getSet, isAccessor := descriptor.value.(propertyGetSet); isAccessor {
+		// Also when both the getter and the setter are undefined (8.10.4 step 4).
 		get := Value{}
 		if getSet[0] != nil {
 			get = objectValue(getSet[0])
